@@ -111,9 +111,81 @@ def execute_long(sc, ctx) -> None:
     ctx.log("tim-long", n, k, sc["ulps"], int(amb.sum()), zlib.crc32(np.round(cube, 2).tobytes()))
 
 
+def generate_long_fil(rng) -> dict:
+    """A profile-style fold of a long multi-channel observation: more than 2^24 (sample, channel) values per cell - where a
+    hit counter kept in float32, or in a 24-bit mantissa anywhere, stops counting.  The data are sparse 0/1 so that the cell
+    SUMS stay below 2^24 (exact in the float32 accumulator) while the COUNTS do not."""
+    nchans = rng.choice([32, 64])
+    nbins = rng.choice([2, 2, 3])
+    n = int((1 << 24) * nbins * rng.choice([1.15, 1.4]) / nchans) + rng.choice([1, 12345])
+    return {"kind": "fil-long", "n": n, "nchans": nchans, "nbins": nbins, "nints": 1, "nbands": 1, "ratio": rng.choice([7.3, 12.7, 10.001, 33.3]),
+            "density": rng.choice([4, 8]), "gulp": rng.choice([n // 7 + 1, 16384, n + 5]), "vseed": rng.randrange(1 << 16), "accel": 0.0, "faults": [], "ops": [{"gulp": 1}]}
+
+
+def execute_long_fil(sc, ctx) -> None:
+    from sim.core import open_reader
+    from sim.disk import SimDisk
+
+    n, nch, nbins = int(sc["n"]), int(sc["nchans"]), int(sc["nbins"])
+    period = float(np.float32(sc["ratio"] * TSAMP))
+    ctx.probe("long-fold(>2^24-values-per-cell)")
+    ctx.sig += ["fil-long", f"nbins{nbins}"]
+    info = {"api": "Filterbank.fold", "n": n, "nchans": nch, "period": period, "nbins": nbins, "gulp": sc["gulp"]}
+
+    def mk(clause, detail):
+        return Violation(f"C11/Filterbank.fold/{clause}/long", detail, info)
+
+    ts = float(np.float32(TSAMP))
+    phase = nbins * (np.arange(n, dtype=np.float64) * ts) / period + 0.5
+    fl = np.floor(phase)
+    frac = phase - fl
+    amb = (frac < 1e-4) | (frac > 1 - 1e-4)
+    pbin = fl.astype(np.int64) % nbins
+    other = np.where(frac < 0.5, pbin - 1, pbin + 1) % nbins
+    del phase, fl, frac
+    tt = np.arange(n, dtype=np.int64)[:, None]
+    cc = np.arange(nch, dtype=np.int64)[None, :]
+    data = ((filgen._mix(int(sc["vseed"]), tt * np.ones((1, nch), dtype=np.int64), cc * np.ones((n, 1), dtype=np.int64)) % np.uint64(int(sc["density"]))) == 0).astype(np.uint8)
+    data[amb, :] = 0
+    rows = data.sum(axis=1, dtype=np.int64)
+    sums = np.bincount(pbin[~amb], weights=rows[~amb].astype(np.float64), minlength=nbins)
+    cdef = np.bincount(pbin[~amb], minlength=nbins) * nch
+    camb = (np.bincount(pbin[amb], minlength=nbins) + np.bincount(other[amb], minlength=nbins)) * nch
+    if sums.max() >= (1 << 24):
+        raise Rejected("cell sums would not be exact in float32")
+    spec = {"nbits": 8, "nchans": nch, "nsamps": [n], "pad": [0], "vseed": 0, "mode": "small", "fch1": 1500.0, "foff": -1.0, "tsamp": TSAMP}
+    path = os.path.join(ctx.root, "long_8.fil")
+    with open(path, "wb") as fp:
+        fp.write(filgen.encode_header(filgen.header_fields(spec, 0, 58000.0)))
+        data.tofile(fp)
+    del data, rows, tt, cc
+    with SimDisk(ctx, []) as sim:
+        sim.begin_op(0, budget=1000000)
+        reader = open_reader("C11", [path], allow_chdir=False)
+        try:
+            cube = np.asarray(reader.fold(period, 0.0, accel=0.0, nbins=nint(nbins), nints=1, nbands=1, gulp=nint(int(sc["gulp"])), quiet=True).data, dtype=np.float64).reshape(nbins)
+        except Violation:
+            raise
+        except Exception as e:  # noqa: BLE001
+            raise mk("raised", repr(e)[:300]) from None
+        reader._file.close()
+    hi = sums / np.maximum(cdef, 1)
+    lo = sums / np.maximum(cdef + camb, 1)
+    tol = 1e-6 * np.maximum(1.0, hi)
+    ok = (cube >= lo - tol) & (cube <= hi + tol)
+    if not ok.all():
+        j = int(np.argmax(~ok))
+        raise mk("cell-not-mean-of-its-samples", f"bin {j}: got {cube[j]!r}, the {int(cdef[j])} values the phase formula assigns to it have mean in [{lo[j]:.8f}, {hi[j]:.8f}]")
+    ctx.probe("compared-cube")
+    ctx.log("fil-long", n, nch, nbins, zlib.crc32(np.round(cube, 6).tobytes()))
+
+
 def generate(rng, tier) -> dict:
-    if rng.random() < (0.003 if tier == "quick" else 0.01):
+    r = rng.random()
+    if r < (0.003 if tier == "quick" else 0.01):
         return generate_long(rng)
+    if r < (0.0045 if tier == "quick" else 0.015):
+        return generate_long_fil(rng)
     kind = rng.choice(["fil", "fil", "fil", "tim"])
     pulse = rng.random() < 0.12
     ratio = rng.choice([7.0, 10.0, 10.001, 3.3333, 12.5, 4.0, 8.0, 16.0, 32.0, round(rng.uniform(2.5, 40.0), 4), rng.randint(3, 20) + rng.choice([0.0, 1e-3, -1e-3])])
@@ -181,6 +253,12 @@ def _resolve_accel(rng, accel, nsamp_total):
 def fixup(sc):
     for k in ("nbins", "nints"):
         sc[k] = max(1, sc[k])
+    if sc["kind"] == "fil-long":
+        sc["n"] = max(1000, int(sc["n"]))
+        sc["nbins"] = max(2, min(int(sc["nbins"]), 8))
+        sc["nchans"] = max(1, int(sc["nchans"]))
+        sc["gulp"] = max(1024, int(sc["gulp"]))
+        return sc
     if sc["kind"] == "tim-long":
         sc["n"] = max(1000, int(sc["n"]))
         sc["k"] = max(2, int(sc["k"]))
@@ -302,6 +380,8 @@ def execute(sc, ctx) -> None:
     ctx.probe(f"kind:{kind}")
     if kind == "tim-long":
         return execute_long(sc, ctx)
+    if kind == "fil-long":
+        return execute_long_fil(sc, ctx)
     ts32 = np.float32(TSAMP)
     period = sc["ratio"] * TSAMP
     p32, a32 = np.float32(period), np.float32(sc["accel"])
